@@ -197,6 +197,40 @@ def run_case(case, rec=None):
                      if nt and pl == "generated" else None)
 
 
+def check_move_into_self(cls_name, in_patch, rec):
+    """Moving a group below itself has no single-tree reference (raw HDF5 detaches the subtree), so it is not part of
+    the generated histories; the one sound outcome - refused, nothing changed - is checked here."""
+    from vt.treemodel import dump_real
+
+    t = _mk(cls_name)()
+    case = dict(kind="move-into-self", cls=cls_name, in_patch=in_patch)
+    try:
+        r = t.rec
+        r["g/b"] = 1
+        r["g/sub/c"] = [1, 2]
+        r["g"].attrs["k"] = "v"
+        if in_patch:
+            t.commit()
+        before = dump_real(r)
+        for src, dst, recv in (("g", "g/x", "/"), ("g", "g/sub/g", "/"), ("g/sub", "g/sub/sub", "/"), ("sub", "sub/deeper/x", "g")):
+            try:
+                (r if recv == "/" else r[recv]).move(src, dst)
+                raised = False
+            except Exception:  # noqa: BLE001
+                raised = True
+            now = dump_real(r)
+            if now != before:
+                rec.fail("C01:move-into-own-subtree-changed-tree", dict(case, src=src, dst=dst),
+                         f"move({src!r}, {dst!r}) {'raised but' if raised else 'returned and'} the tree changed: {sorted(set(before) ^ set(now))[:6]}",
+                         "refused without effect")
+                return
+            if not raised:
+                rec.fail("C01:move-into-own-subtree-accepted", dict(case, src=src, dst=dst), "returned normally", "refused")
+        rec.case(nt_key=[cls_name, in_patch, "move-into-self"], classes=["move_into_own_subtree_refused"], sample=case)
+    finally:
+        t.destroy()
+
+
 def run_shard(shard, tier, seed, rec):
     H.install_work_guard()
     if shard.get("kind") == "keys":
@@ -205,6 +239,7 @@ def run_shard(shard, tier, seed, rec):
                 check_invalid_keys(cn, ip, rec)
                 check_marker_forms(cn, ip, rec)
                 check_lazy_big(cn, ip, rec)
+                check_move_into_self(cn, ip, rec)
         return
     i = shard["i"]
     n = {"quick": 70, "thorough": 2500}[tier]
@@ -222,6 +257,8 @@ def replay(rp, rec):
             check_invalid_keys(rp["case"]["cls"], rp["case"]["in_patch"], rec)
         elif rp["case"].get("kind") == "lazybig":
             check_lazy_big(rp["case"]["cls"], rp["case"]["in_patch"], rec)
+        elif rp["case"].get("kind") == "move-into-self":
+            check_move_into_self(rp["case"]["cls"], rp["case"]["in_patch"], rec)
         elif rp["case"].get("kind") == "marker":
             check_marker_forms(rp["case"]["cls"], rp["case"]["in_patch"], rec)
         else:
